@@ -805,7 +805,7 @@ int main(int argc, char** argv)
       if (!(WIFEXITED(st) && WEXITSTATUS(st) == 0))
       {
         fseek(OUT, 0, SEEK_END);
-        fprintf(OUT, "crash %s %d\n", WIFSIGNALED(st) ? "signal" : "exit", WIFSIGNALED(st) ? WTERMSIG(st) : WEXITSTATUS(st));
+        fprintf(OUT, "\ncrash %s %d\n", WIFSIGNALED(st) ? "signal" : "exit", WIFSIGNALED(st) ? WTERMSIG(st) : WEXITSTATUS(st));
         fprintf(stderr, "### crash in scenario: %s\n", name.c_str());
       }
       else fseek(OUT, 0, SEEK_END);
